@@ -129,10 +129,9 @@ extern "C" void harness(void) {
     // any path with more than KMAX bends costs at least manh + PEN*(KMAX+1)
     CHECK(cost <= manh + (double)PEN * (KMAX + 1), "C05 route cost is below the cost floor of paths with more than KMAX bends");
 #ifndef NO_ORACLE
-    {
-        // universally quantified competitor: alternating H/V segments with signed non-zero lengths
-        int nseg = 1 + verif_choice(KMAX + 1);       // 1..KMAX+1 segments = 0..KMAX bends
-        int firstH = verif_choice(2);
+    // universally quantified competitors: for each number of segments and first axis, alternating H/V segments with
+    // signed non-zero symbolic lengths; the implication "valid path => not cheaper" is one solver query per shape
+    for (int nseg = 1; nseg <= KMAX + 1; nseg++) for (int firstH = 0; firstH < 2; firstH++) {
         double x = sx, y = sy, plen = 0; bool ok = true;
         for (int i = 0; i < nseg; i++) {
             double s = verif_coord(-400, 400);
@@ -142,20 +141,23 @@ extern "C" void harness(void) {
             if (horiz) nx = x + s; else ny = y + s;
             for (int k = 0; k < NR; k++) ok = ok & !hits_interior(
                     (VBox){bx[k].x0 - BUF, bx[k].y0 - BUF, bx[k].x1 + BUF, bx[k].y1 + BUF}, x, y, nx, ny);
-            if (i == 0) {
-                unsigned d = horiz ? (s > 0 ? ConnDirRight : ConnDirLeft) : (s > 0 ? ConnDirDown : ConnDirUp);
-                ok = ok & ((d & SRCDIR) != 0);
+            if (i == 0 && SRCDIR != ConnDirAll) {
+                bool pos = s > 0;
+                bool allowed = horiz ? ((pos & ((SRCDIR & ConnDirRight) != 0)) | (!pos & ((SRCDIR & ConnDirLeft) != 0)))
+                                     : ((pos & ((SRCDIR & ConnDirDown) != 0)) | (!pos & ((SRCDIR & ConnDirUp) != 0)));
+                ok = ok & allowed;
             }
-            if (i == nseg - 1) {
-                // arriving heading right means the route enters the destination from its left side
-                unsigned d = horiz ? (s > 0 ? ConnDirLeft : ConnDirRight) : (s > 0 ? ConnDirUp : ConnDirDown);
-                ok = ok & ((d & DSTDIR) != 0);
+            if (i == nseg - 1 && DSTDIR != ConnDirAll) {
+                // arriving heading right (+x) means the route enters the destination from its left side
+                bool pos = s > 0;
+                bool allowed = horiz ? ((pos & ((DSTDIR & ConnDirLeft) != 0)) | (!pos & ((DSTDIR & ConnDirRight) != 0)))
+                                     : ((pos & ((DSTDIR & ConnDirUp) != 0)) | (!pos & ((DSTDIR & ConnDirDown) != 0)));
+                ok = ok & allowed;
             }
             plen = plen + dabs(s); x = nx; y = ny;
         }
         ok = ok & (x == dx) & (y == dy);
-        ASSUME(ok);
-        CHECK(cost <= plen + (double)PEN * (nseg - 1) + 1e-6, "C05 no orthogonal obstacle-avoiding path is cheaper than the route found");
+        CHECK(!ok | (cost <= plen + (double)PEN * (nseg - 1) + 0x1p-20), "C05 no orthogonal obstacle-avoiding path is cheaper than the route found");
     }
 #endif
     WITNESS_POINT();
